@@ -85,6 +85,14 @@ def cases(tier, seed):
                    "outage": rnd.choice([31.0, 45.0, 400.0]), "delta": "all",
                    "seed": rnd.randrange(1 << 30), "err": None, "flaps": 0,
                    "pending": pending, "expire": True}
+        # reconnections that the console resets before reading: the refresh request fails in
+        # the middle of the connected notification; the next connection is refreshed all the same
+        for how in ("fin", "rst", "wfail"):
+            for wflaps in (1, 2, 3):
+                yield {"k": "reconnect", "gen": gen, "how": how, "tau": 1.0,
+                       "outage": rnd.choice([0.0, 1.9]), "delta": rnd.choice(["one", "all"]),
+                       "seed": rnd.randrange(1 << 30), "err": None, "flaps": 0,
+                       "wflaps": wflaps}
         for outage in OUTAGES:
             for delta in ("none", "one", "all"):
                 yield {"k": "reconnect", "gen": gen, "how": "hb", "tau": 0.0, "outage": outage,
@@ -214,7 +222,14 @@ def run_reconnect(case):
             net.script.append((rnd.choice(["refuse", "refuse", "timeout", "unreachable"]), 0.0))
         if case.get("refusals"):
             obs["refused_attempts_before_reconnection"] = case["refusals"]
-        if case["outage"] > 0:
+        for _ in range(case.get("wflaps", 0)):
+            # the console accepts and resets before it has read anything: the first write on
+            # that connection - the refresh request, sent from inside the connected
+            # notification - fails
+            net.script.append(("accept", 0.0, 1))
+        if case.get("wflaps"):
+            obs["reconnections_whose_first_write_failed"] = case["wflaps"]
+        if case["outage"] > 0 or case.get("wflaps"):
             # the reconnection is in flight for `outage` seconds
             net.script.append(("accept", case["outage"]))
         t_loss = loop.time()
@@ -261,7 +276,8 @@ def run_reconnect(case):
         out["pending_ok"] = 0 if case.get("expire") else n_ok
         if case.get("expire"):
             out["accepted_then_expired"] = min(n_ok, 10)
-        await asyncio.sleep(case["outage"] + 2.5 + 2.0 * case.get("refusals", 0))
+        await asyncio.sleep(case["outage"] + 2.5 + 2.0 * case.get("refusals", 0)
+                            + 2.5 * case.get("wflaps", 0))
         await quiesce(loop)
         c2 = net.current()
         out["reconnected"] = c2 is not None and c2.id != c1.id
